@@ -46,7 +46,7 @@ def plan(tier, seed):
         S.append({"kind": "l2", "w": 2, "ops1": BIN_ALL})
         S += [{"kind": "unary", "w": w} for w in (1, 2, 3)]
         S += [{"kind": "tmpl", "n": 60, "stream": i} for i in range(32)]
-        S += [{"kind": "rand", "n": 4000, "stream": i, "depth": 3 + i % 4} for i in range(24)]
+        S += [{"kind": "rand", "n": 2500, "stream": i, "depth": 3 + i % 3} for i in range(32)]
         S += [{"kind": "selfcheck"}]
     return S
 
